@@ -443,13 +443,13 @@ func checkRej(c RejCase) error {
 func TestC10Reject(t *testing.T) {
 	h.Run(t, h.Spec[RejCase]{
 		Property: "C10", Name: "reject", Quick: 2000, Thorough: 60000,
-		Rule: "bootstrap streams of 1..6 trees with one tree on another taxon set (one tip renamed / added / removed) or an error record at every position: FBP and TBE (1 thread) must return an error; every case is non-trivial",
+		Rule: "bootstrap streams of 1..6 trees with one tree on another taxon set (one tip renamed / added / removed / named like another tip) or an error record at every position: FBP and TBE (1 thread) must return an error; every case is non-trivial",
 		Timeout: 30e9,
 		Gen: func(t *rapid.T, thorough bool) RejCase {
 			o := baseOpts(false)
 			o.MinTips = 5
 			base := gen.Tree(t, o)
-			c := RejCase{Ref: base, Kind: rapid.SampledFrom([]string{"renamed", "added", "removed", "error-record"}).Draw(t, "kind"), Pos: rapid.IntRange(0, 5).Draw(t, "pos")}
+			c := RejCase{Ref: base, Kind: rapid.SampledFrom([]string{"renamed", "added", "removed", "duplicate", "error-record"}).Draw(t, "kind"), Pos: rapid.IntRange(0, 5).Draw(t, "pos")}
 			n := rapid.IntRange(1, 6).Draw(t, "n")
 			for i := 0; i < n; i++ {
 				c.Boots = append(c.Boots, gen.Perturb(t, base, rapid.IntRange(0, 2).Draw(t, "np"), true, gen.DyadicZ))
@@ -459,6 +459,14 @@ func TestC10Reject(t *testing.T) {
 			switch c.Kind {
 			case "renamed":
 				m.TipNodes()[rapid.IntRange(0, len(m.Tips())-1).Draw(t, "rt")].Name = "zz_other"
+			case "duplicate":
+				tn := m.TipNodes()
+				i, j := rapid.IntRange(0, len(tn)-1).Draw(t, "d1"), rapid.IntRange(0, len(tn)-1).Draw(t, "d2")
+				if i == j {
+					tn[i].Name = "zz_other"
+				} else {
+					tn[i].Name = tn[j].Name
+				}
 			case "added":
 				x := m.TipNodes()[rapid.IntRange(0, len(m.Tips())-1).Draw(t, "at")]
 				x.Ch = []*ref.Node{{Name: x.Name}, {Name: "zz_extra"}}
